@@ -297,31 +297,82 @@ pub mod ant_evm {
     pub use crate::data_payments::{EncodedPeerId, PaymentQuote, ProofOfPayment, QUOTE_EXPIRATION_SECS};
     pub use ::ant_evm::*;
     pub mod payment_vault {
-        use evmlib::common::{Address, Amount, QuoteHash};
-        use evmlib::quoting_metrics::QuotingMetrics;
-        #[derive(Debug)]
-        pub struct ContractError;
-        impl std::fmt::Display for ContractError {
-            fn fmt(&self, f: &mut std::fmt::Formatter<'_>) -> std::fmt::Result {
-                write!(f, "payment invalid")
+        /// evmlib's real verify_data_payment (transplanted), over the model contract handle in shim::vault
+        pub use crate::payment_vault::verify_data_payment;
+    }
+}
+
+/// model of the payment contract handle behind evmlib's PaymentVaultHandler: for every entry it is asked about,
+/// the harness decides whether the chain says "paid" (isValid); the results come back in the order asked, as the
+/// contract's fixed array of three (unused slots are neutral: valid, zero hash, nothing paid)
+pub mod vault {
+    use evmlib::common::{Address, Amount, QuoteHash};
+    use evmlib::quoting_metrics::QuotingMetrics;
+    pub fn http_provider<U>(_url: U) {}
+    pub mod error {
+        #[derive(Debug, thiserror::Error)]
+        pub enum Error {
+            #[error("Payment is invalid.")]
+            PaymentInvalid,
+            #[error("Payment verification length must be 3.")]
+            PaymentVerificationLengthInvalid,
+            #[error("rpc failure")]
+            Rpc,
+        }
+    }
+    pub mod interface {
+        #[allow(non_snake_case)]
+        pub mod IPaymentVault {
+            use super::super::*;
+            #[allow(non_snake_case)]
+            #[derive(Clone, Debug)]
+            pub struct PaymentVerification {
+                pub metrics: QuotingMetrics,
+                pub rewardsAddress: Address,
+                pub quoteHash: QuoteHash,
+            }
+            #[allow(non_snake_case)]
+            #[derive(Clone, Debug)]
+            pub struct PaymentVerificationResult {
+                pub quoteHash: QuoteHash,
+                pub amountPaid: Amount,
+                pub isValid: bool,
+            }
+            impl From<(QuoteHash, QuotingMetrics, Address)> for PaymentVerification {
+                fn from(v: (QuoteHash, QuotingMetrics, Address)) -> Self {
+                    PaymentVerification { metrics: v.1, rewardsAddress: v.2, quoteHash: v.0 }
+                }
             }
         }
-        /// the payment contract: any on-chain outcome (the harness chooses); records what it was asked
-        pub async fn verify_data_payment(
-            _network: &::ant_evm::EvmNetwork,
-            owned: Vec<QuoteHash>,
-            payment: Vec<(QuoteHash, QuotingMetrics, Address)>,
-        ) -> Result<Amount, ContractError> {
+    }
+    pub struct PaymentVaultHandler;
+    impl PaymentVaultHandler {
+        pub fn new<A, P>(_address: A, _provider: P) -> Self {
+            PaymentVaultHandler
+        }
+        pub async fn verify_payment<I: IntoIterator<Item: Into<interface::IPaymentVault::PaymentVerification>>>(
+            &self,
+            payment_verifications: I,
+        ) -> Result<[interface::IPaymentVault::PaymentVerificationResult; 3], error::Error> {
+            use interface::IPaymentVault::{PaymentVerification, PaymentVerificationResult};
+            let asked: Vec<PaymentVerification> = payment_verifications.into_iter().map(|v| v.into()).collect();
             crate::shim::CONTRACT.with(|c| {
                 let mut c = c.borrow_mut();
                 c.calls += 1;
-                c.last_owned = owned.len();
-                c.last_payment = payment.len();
-                if c.answer_ok {
-                    Ok(Amount::from(1000u64))
-                } else {
-                    Err(ContractError)
+                c.last_payment = asked.len();
+                if c.rpc_fails {
+                    return Err(error::Error::Rpc);
                 }
+                if asked.len() > 3 {
+                    return Err(error::Error::PaymentVerificationLengthInvalid);
+                }
+                let neutral = PaymentVerificationResult { quoteHash: QuoteHash::default(), amountPaid: Amount::ZERO, isValid: true };
+                let mut out = [neutral.clone(), neutral.clone(), neutral];
+                for (i, a) in asked.iter().enumerate() {
+                    let paid = !c.unpaid.contains(&i);
+                    out[i] = PaymentVerificationResult { quoteHash: a.quoteHash, amountPaid: if paid { Amount::from(1000u64) } else { Amount::ZERO }, isValid: paid };
+                }
+                Ok(out)
             })
         }
     }
@@ -329,7 +380,9 @@ pub mod ant_evm {
 
 #[derive(Default)]
 pub struct Contract {
-    pub answer_ok: bool,
+    /// positions (in the order asked) that the chain reports as not paid
+    pub unpaid: Vec<usize>,
+    pub rpc_fails: bool,
     pub calls: usize,
     pub last_owned: usize,
     pub last_payment: usize,
